@@ -1,5 +1,63 @@
-"""C08 (Verus), taproot side of the policy compiler (src/policy/concrete.rs, feature `compiler`) -- part A.
-WORK IN PROGRESS (docstring is completed at the end of the file's development).
+"""C08 (Verus), taproot side of the policy compiler: src/policy/concrete.rs (feature `compiler`) + TapTree::{leaf, combine}.
+
+WHAT IS DECIDED.  Whatever the f64 cost / probability search picks, the taproot output the compiler assembles MEANS the policy:
+
+    compile_tr / compile_tr_native:   forall assignments a (which keys sign, which preimages are known, which lock atoms hold):
+        csem(policy, a)  <==>  internal key signs  or  exists leaf of the script tree: the leaf's lift holds under a
+    (when the internal key is the caller's `unspendable_key` -- used only when NO pk() is a root-level alternative -- the assignments
+     considered are those in which that key does not sign)
+
+decomposed per function (every clause is a named obligation):
+  TapleafProbabilityIter::next   the work stack keeps the disjunction: yielded leaf OR rest of the stack == stack before (for BOTH readings of a
+                                 sub-policy: "holds under a" and "has pk(k) as a root-level alternative"); a yielded leaf is not an `or` / `thresh(1,..)`;
+                                 the number of policy nodes on the stack strictly decreases (termination of every consumer, C11)
+  tapleaf_probability_iter       starts with the whole policy
+  extract_key                    a root-level key is preferred; key OR rest == policy; fallback = the unspendable key with the policy unchanged;
+                                 Err exactly when there is no key at all.  Its iterator chain `.filter_map(F).max_by_key(G).map(H)` is a verified loop
+                                 (extract_key_chain) that drives the REAL `next`; F and H are lambda-lifted verbatim, G (f64 priority) is dropped
+  translate_unsatisfiable_pk     per-node step (rtl post-order): the rebuilt node means the original one with the key not signing
+  with_huffman_tree              the leaves of the result are exactly the BAG of input leaves -- for every order in which the heap may pop
+  TapTree::{leaf, combine}       leaves = left leaves then right leaves, each one level deeper; Err iff a leaf would sit below depth 128 (BIP341)
+  Tr::new / Descriptor::new_tr   Ok iff the key is allowed in tapscript (not uncompressed); stores key and tree
+  generate_combination           thresh(k, x1..xn), k < n  <==>  exists i: thresh(k, all but xi)      (its doc's claim; lemma_drop_one)
+  enumerate_pol(_native)         the returned alternatives are never empty and their disjunction is the policy (And arm of the native variant: R9)
+  has_if_fragment (per node)     true exactly for d: j: andor or_d or_c or_i -- the fragments whose script template contains IF / NOTIF
+  compile_tr / compile_tr_native the clause above; root-level key becomes the internal key; unspendable key only as fallback; native leaves are IF-free
+
+ORACLE (none of it read off the code): `csem` = truth table of a concrete policy (And = all, Or = any, Thresh = at least k; text of c18_semantic),
+BIP341 spending rule (key path or any ONE leaf; text of c07_taptree), BIP341 depth limit 128, the script templates of the specification (IF fragments).
+ASSUMED here (declared with vf.trust): `compiler::best_compilation(leaf policy)` returns a miniscript whose lift means the leaf policy (its per-candidate
+half is unit c08_compiler_nodes); `enumerate_leaves` (BTreeSet / BTreeMap fixed point) keeps the disjunction.
+
+PARTIAL CORRECTNESS + PANIC FREEDOM AS TWO INSTANCES.  Functions that contain `X.expect(..)` on a Result the compiler claims cannot fail are verified
+twice from the same text: `<fn>` with `.expect(..)` read as "if the call returns, X was Ok" (returns_ok_or_panics: meaning clauses hold for every run that
+returns) and `<fn>__no_panic` with the real `.expect(..)` (may it panic?).
+
+RED ON THE UNCHANGED TREE (all three reproduced against the real crate, see the unit report):
+  with_huffman_tree__no_panic.body        `TapTree::combine(..).expect("huffman tree cannot produce depth > 128 ..")` panics for a valid policy with > 130 nested `or`s
+  compile_tr__no_panic.body / compile_tr_native__no_panic.body
+                                          `Descriptor::new_tr(..).expect("compiler produces sane output")` panics when the extracted (or supplied) internal key is uncompressed
+  compile_tr(.._native).anyone_can_spend_policy_keeps_its_meaning
+                                          the policy TRIVIAL with an unspendable key compiles to `tr(KEY)`: anyone-can-spend became nobody-can-spend
+
+REWRITES (each a rewrite object; a lost pattern is UNDECIDED)
+  R1      `#[cfg(feature = "compiler")]` dropped (the text compiled with the feature on is verified)
+  R7-f64  `f64` -> opaque `F64` with uninterpreted total `* / +`; float literals -> F64::lit(L); `x as f64` -> usize_as_f64(x)
+          (Verus: primitive float operators carry an unprovable precondition, no int->float cast); probabilities never enter a meaning clause
+  R7      `impl Iterator::next` emitted as an inherent method, `Self::Item` spelled out; `compiler::best_compilation` -> the stub of that name;
+          `TapTree::leaf<A: Into<Arc<..>>>(ms: A)` specialised to the type every call site passes (`ms.into()` = `Arc::new(ms)`);
+          `assert_ne!(a, 0, "..")` -> `assert!(a != 0)`; `pol.as_ref()` -> `&**pol`; `Tr` without its `spend_info: Mutex` cache field
+  R7-partial  `X.expect("..")` -> returns_ok_or_panics(X) in the partial-correctness instance (see above)
+  R8      `for PAT in xs.iter().rev()` -> descending index loop; `for PAT in a.iter().chain(b.iter())` -> loop over a, then loop over b, body verbatim in both;
+          `for PAT in ITER` over the leaf iterator -> the language's desugaring `loop { let PAT = match it.next() { Some(x) => x, None => break }; .. }`;
+          `for (i, PAT) in v.iter().enumerate()` -> index loop with `let i = index`
+  R13''   `P if G => A, _ => B` (guarded arm directly before the final wildcard) -> `P => if G { A } else { B }` (Verus loses `final(self)` at a `return` after a guarded arm)
+  R14/R16 iterator chains -> verified index loops with the closure bodies verbatim (`.iter().map(|PAT| BODY).collect()`, `Threshold::from_iter(k,
+          it.enumerate().filter_map(|(j, sub)| BODY))` = collect + `Threshold::new` for MAX = 0); `.sum()` / `.fold(0, +)` of odds -> uninterpreted usize
+  R6      `enumerate_leaves(.., expand_fn)` (fn pointer) -> one instance per expansion function
+  R9      And arm of enumerate_pol_native (recursion + enumerate/filter/map closures + Vec::insert): excluded, not claimed
+  R10     loop invariants / decreases / ghost snapshots / lemma calls; `for (prob, script) in ms` gets a name for its iterator
+  R12     `.map_err(CompilerError::PolicyError)` eta-expanded; `a.min(b)` -> if/else
 """
 import re
 
@@ -23,7 +81,28 @@ TR = "src/descriptor/tr/mod.rs"
 COMPILER = "src/policy/compiler.rs"
 CTX = "src/miniscript/context.rs"
 
-DROPPED = []
+DROPPED = [
+    "enumerate_leaves (fixed-point loop over BTreeSet / BTreeMap with labelled breaks, fn-pointer parameter): NOT verified; consumed through the ASSUMED contract "
+    "`the returned alternatives are the policy` (two instances, one per expansion function); what it relies on is proved for enumerate_pol / enumerate_pol_native",
+    "enumerate_pol_native: the And arm (recursion, enumerate/filter/map closures, Vec::insert: distributing `and` over an expanded child) is excluded (R9); the two "
+    "clauses are claimed for every other variant only",
+    "compile_tr_private_experimental (iterator chain with `best_compilation(..).unwrap()` inside a closure), compile_to_descriptor, compile: not in this unit "
+    "(compile_to_descriptor's Tr arm delegates to compile_tr)",
+    "compiler::best_compilation is a stub: an Ok result lifts and means the leaf policy it was given (ASSUMPTION; per-candidate half: unit c08_compiler_nodes)",
+    "Miniscript::lift of a compiled leaf is the uninterpreted `spec_ms_lift` (per-node step: unit c07_lift); the descriptor-level lift of the result is not re-verified "
+    "(TapTree::lift / Tr::lift: unit c07_taptree); the clause is stated with that unit's BIP341 oracle",
+    "is_valid, check_binary_ops, is_safe_nonmalleable, check_num_tapleaves: signature-only stubs, nothing assumed about their answers",
+    "translate_unsatisfiable_pk: per-node step only (loop / push / final try_unwrap dropped; traversal contract DESIGN 3.2); extract_key consumes the whole-tree "
+    "statement as an assumed contract",
+    "has_if_fragment: per-node predicate only (`pre_order_iter().any(..)` summarised by an uninterpreted spec_has_if)",
+    "extract_key: `max_by_key` (f64 priority) is modelled as `returns one of the candidates`; with_huffman_tree: BinaryHeap is a bag, `pop` returns SOME element: "
+    "the meaning clauses hold for every order, Huffman optimality is not examined",
+    "f64: every probability is an opaque value (R7-f64); NaN / zero total odds of hand-built policies (`or(0@a,0@b)` is rejected by the parser) and usize overflow of "
+    "summed odds are not examined",
+    "TapTree::combine: `Vec::with_capacity(a + b)` needs `a + b <= usize::MAX` (axiom_vec_len: a Vec holds at most isize::MAX bytes)",
+    "termination: proved for TapleafProbabilityIter::next and every loop driving it (measure: policy nodes on the work stack), the Huffman loop, combine, "
+    "generate_combination, enumerate_pol; not for enumerate_leaves",
+]
 
 
 def pick(text, name):
